@@ -58,7 +58,8 @@ CLAIMED = {
             "A worker starts listening exactly at expiry -0.5 s, -1 ms, 0, +1 ms, +0.5 s for immediate, delayed, retried "
             "and rescheduled messages; a per-iteration monitor records when the message is dead-lettered: never "
             "executed after expiry, never dead-lettered at or before it, expired messages readable from the dead category; "
-            "with the dead-lettering call failing once the message is still never executed.",
+            "with the dead-lettering call failing once the message is still never executed; the grid is repeated with the "
+            "process 9 h east and 5 h west of UTC.",
             FAKES, "DESIGN.md 4 C12"),
     "C14": ("model_checking", "start/stop sweeps over every iteration + deviation-bounded search over server request order and stalls",
             "Two consumers and two workers on one queue (1-3 messages): the second participant starts, and the first "
